@@ -36,6 +36,8 @@ ANCHORS = [
     ("src/easynetwork/lowlevel/api_sync/endpoints/stream.py", "_DataSenderImpl.send"),
     ("src/easynetwork/lowlevel/api_sync/endpoints/stream.py", "StreamEndpoint.send_packet"),
     ("src/easynetwork/lowlevel/_stream.py", "StreamDataProducer.generate"),
+    ("src/easynetwork/lowlevel/_utils.py", "lock_with_timeout"),
+    ("src/easynetwork/clients/tcp.py", "TCPNetworkClient.send_packet"),
     ("src/easynetwork/lowlevel/api_async/backend/_asyncio/stream/socket.py",
      "AsyncioTransportStreamSocketAdapter.send_all_from_iterable"),
     ("src/easynetwork/lowlevel/api_async/backend/_asyncio/stream/socket.py", "AsyncioTransportStreamSocketAdapter.send_all"),
@@ -275,12 +277,41 @@ def run_impl(inp):
     if impl in (5, 6, 7, 9):
         import c04_real
         return c04_real.run(inp)
+    if impl in (10, 11):
+        return _client_run(inp)
     raise ValueError(f"unknown impl {impl}")
+
+
+def _as_c11(inp):
+    """client-level cases are run by the C11 driver's machinery (scripted locks / gated threads)"""
+    path, iov, chunks, T, ri, sscript, selscript, impl, extra = inp[:9]
+    if impl == 10:
+        lk, hs = extra
+        return [3, hs, iov, chunks, T, ri, lk, sscript, selscript, 0]
+    labels, kind = extra
+    return [9, labels, kind]
+
+
+def _client_run(inp):
+    import c11
+    return c11.run_impl(_as_c11(inp))
 
 
 # ---------------------------------------------------------------------------------------------------------------
 # the property, stated on the implementation
 def oracle(inp):
+    if inp[7] in (10, 11):
+        import c11
+        sub = _as_c11(inp)
+        f = c11.oracle(sub)
+        if f is None and inp[7] == 10:
+            out = c11.run_impl(sub)
+            want = b"".join(inp[2])
+            if out[0] == 0 and out[1] != want:
+                return f"send_packet returned but the peer read {out[1]!r} instead of {want!r}"
+            if out[0] != 0 and not want.startswith(out[1]):
+                return f"send_packet failed after writing {out[1]!r}, not a prefix of {want!r}"
+        return f
     path, iov, chunks, T, ri, sscript, selscript, impl = inp[:8]
     out = run_impl(inp)
     outcome, wire = out[0], out[1]
@@ -492,6 +523,33 @@ def cases(tier, rng, escalate):
         for impl, path in ((5, 5), (6, 5), (7, 6), (9, 7)):
             yield real_case(path, rng.choice([1, 2, 1024]) if path == 5 else 1024, mk_chunks(lengths), impl, 0, 4096, 0,
                             rng.choice([12, 13]), None)
+    # client level: TCPNetworkClient.send_packet behind the send lock (scripted locks: held / free, the receive lock
+    # held elsewhere), and lock histories under real threads
+    import c11_threads
+    locks = [0, 0, [1, 0], [1, 2], [0, 1], [0, 3], [1, 9]]
+    for _ in range(1500 if thorough else 300):
+        lengths = [rng.choice([1, 2, 3, 5]) for _ in range(rng.randint(0, 3))]
+        hs, iov = rng.choice([(1, 1), (1, 2), (1, 1024), (0, 1024), (1, 0)])
+        c = _case(8, iov, lengths, rng.choice(TS + [2, 5, -1]), rng.choice(RIS), _rand_script(rng, plain + ["s0"], rng.randint(0, 4)),
+                  _rand_sel(rng), 10, ["client-lock"])
+        c["input"].append([rng.choice(locks), hs])
+        c["nontrivial"] = True
+        yield c
+    hist = [
+        [[0, 0, 0, []], [0, 1, 0, [5]], [3, 0, 1], [1, 1], [3, 1, 1], [0, 2, 0, [5]], [3, 2, 1]],
+        [[0, 0, 0, []], [0, 1, 0, []], [3, 0, 0], [1, 1], [3, 1, 1], [0, 2, 2, []], [0, 3, 0, [0]], [3, 3, 1]],
+        [[0, 0, 0, []], [0, 1, 0, [5]], [2, 1], [3, 0, 1], [0, 2, 0, [0]], [3, 2, 1]],
+        [[0, 0, 0, []], [0, 1, 0, [0]], [3, 0, 1], [0, 2, 0, [5]], [3, 2, 0]],
+        [[0, 0, 1, []], [0, 1, 0, [5]], [3, 1, 1], [3, 0, 1]],
+    ]
+    seen = set()
+    for _ in range(60 if thorough else 10):
+        h = c11_threads.gen_history(rng, 4)
+        if h and repr(h) not in seen and any(lb[0] == 0 and lb[2] == 0 for lb in h):
+            seen.add(repr(h))
+            hist.append(h)
+    for h in hist:
+        yield dict(input=[9, 0, [], [], [], [], [], 11, [h, 0]], tags=["client-threads", "path9", "impl11"], nontrivial=True)
     # random volume
     n_random = 12000 if thorough else 2500
     for _ in range(n_random):
